@@ -245,6 +245,8 @@ class Monitor(object):
             i.hurry = True
         elif t == "password":
             text = ev["text"]
+            # a challenge whose service a reload has meanwhile removed can no longer be answered: it is void, and the line is a password
+            i.more_pending = set(s_ for s_ in i.more_pending if self.cfg.proto_of(s_) is not None)
             if i.more_pending and i.pw is not None:
                 ctx["more_targets"] = set(i.more_pending)
                 ctx["more_text"] = text
